@@ -111,7 +111,7 @@ let case_iter h : string =
     in
     let recap = capture_calls (List.map op_to_call ops) in
     let j v = if v = [] then "-" else String.concat "," v in
-    Printf.sprintf "changes=%s slices=%s recap=%s" (j ch) (j sl) (fmt_ops recap)
+    Printf.sprintf "changes=%s slices=%s recap=%s all_same=1" (j ch) (j sl) (fmt_ops recap)
   with
   | P -> "PANIC"
   | F -> "OUTOFFUEL"
